@@ -320,7 +320,7 @@ class TrafficFilter:
         try:
             return self._is_external_ip(gethostbyname(host))
 
-        except socket_error as error:
+        except (socket_error, ValueError) as error:
             # If there is a network error, we will avoid storing this and will try again next time.
             self._logger.warning(
                 f"TrafficFilter::Could not resolve: '{host}'. Error: {error}"
